@@ -369,6 +369,18 @@ where
         }
         self
     }
+
+    /// Verification only: read access to the chains.
+    #[cfg(mini_mcmc_verif)]
+    pub fn verif_chains(&self) -> &Vec<NUTSChain<T, B, GTarget>> {
+        &self.chains
+    }
+
+    /// Verification only: mutable access to the chains.
+    #[cfg(mini_mcmc_verif)]
+    pub fn verif_chains_mut(&mut self) -> &mut Vec<NUTSChain<T, B, GTarget>> {
+        &mut self.chains
+    }
 }
 
 /// Single-chain state and adaptation for NUTS.
@@ -461,6 +473,32 @@ where
     pub fn set_seed(mut self, seed: u64) -> Self {
         self.rng = SmallRng::seed_from_u64(seed);
         self
+    }
+
+    /// Verification only: (m, n_discard, epsilon, epsilon_bar, h_bar, mu) of the adaptation.
+    #[cfg(mini_mcmc_verif)]
+    pub fn verif_adapt_state(&self) -> (usize, usize, f64, f64, f64, f64) {
+        let f = |x: T| num_traits::ToPrimitive::to_f64(&x).unwrap_or(f64::NAN);
+        (
+            self.m,
+            self.n_discard,
+            f(self.epsilon),
+            f(self.epsilon_bar),
+            f(self.h_bar),
+            f(self.mu),
+        )
+    }
+
+    /// Verification only: the chain's generator.
+    #[cfg(mini_mcmc_verif)]
+    pub fn verif_rng(&self) -> &SmallRng {
+        &self.rng
+    }
+
+    /// Verification only: the chain's generator, mutable.
+    #[cfg(mini_mcmc_verif)]
+    pub fn verif_rng_mut(&mut self) -> &mut SmallRng {
+        &mut self.rng
     }
 
     /// Runs the chain for `n_collect + n_discard` steps, adapting during burn-in and
@@ -556,11 +594,19 @@ where
             .sample_iter(StandardNormal)
             .take(dim)
             .collect();
+        #[cfg(mini_mcmc_verif)]
+        mcmc_sim::trace::emit_with("nuts_init_mom", || {
+            mom_0_data.iter().map(verif_f64::<T>).collect()
+        });
         let mom_0 = Tensor::<B, 1>::from_data(mom_0_data.as_slice(), &B::Device::default());
         if T::abs(self.epsilon + T::one()) <= T::epsilon() {
             self.epsilon = find_reasonable_epsilon(self.position.clone(), mom_0, &self.target);
+            #[cfg(mini_mcmc_verif)]
+            mcmc_sim::trace::emit("nuts_eps0", &[verif_f64(&self.epsilon)]);
         }
         self.mu = T::ln(T::from(10).unwrap() * self.epsilon);
+        #[cfg(mini_mcmc_verif)]
+        mcmc_sim::trace::emit("nuts_init_end", &[verif_f64(&self.epsilon), verif_f64(&self.mu)]);
         (dim, sample)
     }
 
@@ -575,6 +621,14 @@ where
             .sample_iter(StandardNormal)
             .take(dim)
             .collect::<Vec<T>>();
+        #[cfg(mini_mcmc_verif)]
+        mcmc_sim::trace::emit("nuts_step_begin", &[self.m as f64, verif_f64(&self.epsilon)]);
+        #[cfg(mini_mcmc_verif)]
+        mcmc_sim::trace::emit_with("nuts_pos", || {
+            self.position.to_data().convert::<f64>().to_vec::<f64>().unwrap()
+        });
+        #[cfg(mini_mcmc_verif)]
+        mcmc_sim::trace::emit_with("nuts_mom", || mom_0.iter().map(verif_f64::<T>).collect());
         let mom_0 = Tensor::<B, 1>::from_data(mom_0.as_slice(), &B::Device::default());
         let (ulogp, grad) = self.target.unnorm_logp_and_grad(self.position.clone());
         let joint = ulogp.clone() - (mom_0.clone() * mom_0.clone()).sum() * 0.5;
@@ -582,6 +636,11 @@ where
             T::from_f64(joint.into_scalar().to_f64()).expect("successful conversion from 64 to T");
         let exp1_obs = self.rng.sample(Exp1);
         let logu = joint - exp1_obs;
+        #[cfg(mini_mcmc_verif)]
+        mcmc_sim::trace::emit(
+            "nuts_slice",
+            &[verif_f64(&exp1_obs), verif_f64(&joint), verif_f64(&logu)],
+        );
 
         let mut position_minus = self.position.clone();
         let mut position_plus = self.position.clone();
@@ -598,6 +657,8 @@ where
         while s {
             let u_run_1: T = self.rng.random::<T>();
             let v = (2 * (u_run_1 < T::from(0.5).unwrap()) as i8) - 1;
+            #[cfg(mini_mcmc_verif)]
+            mcmc_sim::trace::emit("nuts_dir", &[v as f64, j as f64, verif_f64(&u_run_1)]);
 
             let (position_prime, n_prime, s_prime) = {
                 if v == -1 {
@@ -678,6 +739,11 @@ where
                     / T::from(n).expect("successful conversion of n from usize to T"),
             );
             let u_run_2 = self.rng.random::<T>();
+            #[cfg(mini_mcmc_verif)]
+            mcmc_sim::trace::emit(
+                "nuts_accept_u",
+                &[verif_f64(&u_run_2), n_prime as f64, n as f64, s_prime as u8 as f64],
+            );
             if s_prime && (u_run_2 < tmp) {
                 self.position = position_prime;
             }
@@ -708,7 +774,120 @@ where
         } else {
             self.epsilon = self.epsilon_bar;
         }
+        #[cfg(mini_mcmc_verif)]
+        mcmc_sim::trace::emit(
+            "nuts_step_end",
+            &[
+                verif_f64(&alpha),
+                n_alpha as f64,
+                j as f64,
+                n as f64,
+                verif_f64(&self.epsilon),
+                verif_f64(&self.epsilon_bar),
+                verif_f64(&self.h_bar),
+            ],
+        );
     }
+}
+
+/// Verification only: scalar widened to f64.
+#[cfg(mini_mcmc_verif)]
+fn verif_f64<T: Float>(x: &T) -> f64 {
+    num_traits::ToPrimitive::to_f64(x).unwrap_or(f64::NAN)
+}
+
+/// Verification only: public wrapper around the private `find_reasonable_epsilon`.
+#[cfg(mini_mcmc_verif)]
+pub fn verif_find_reasonable_epsilon<B, T, GTarget>(
+    position: Tensor<B, 1>,
+    mom: Tensor<B, 1>,
+    gradient_target: &GTarget,
+) -> T
+where
+    T: Float + Element,
+    B: AutodiffBackend,
+    GTarget: GradientTarget<T, B> + Sync,
+{
+    find_reasonable_epsilon(position, mom, gradient_target)
+}
+
+/// Verification only: public wrapper around the private `build_tree`.
+#[cfg(mini_mcmc_verif)]
+#[allow(clippy::too_many_arguments, clippy::type_complexity)]
+pub fn verif_build_tree<B, T, GTarget>(
+    position: Tensor<B, 1>,
+    mom: Tensor<B, 1>,
+    grad: Tensor<B, 1>,
+    logu: T,
+    v: i8,
+    j: usize,
+    epsilon: T,
+    gradient_target: &GTarget,
+    joint_0: T,
+    rng: &mut SmallRng,
+) -> (
+    Tensor<B, 1>,
+    Tensor<B, 1>,
+    Tensor<B, 1>,
+    Tensor<B, 1>,
+    Tensor<B, 1>,
+    Tensor<B, 1>,
+    Tensor<B, 1>,
+    Tensor<B, 1>,
+    Tensor<B, 1>,
+    usize,
+    bool,
+    T,
+    usize,
+)
+where
+    T: Float + Element,
+    B: AutodiffBackend,
+    GTarget: GradientTarget<T, B> + Sync,
+{
+    build_tree(
+        position,
+        mom,
+        grad,
+        logu,
+        v,
+        j,
+        epsilon,
+        gradient_target,
+        joint_0,
+        rng,
+    )
+}
+
+/// Verification only: public wrapper around the private `stop_criterion`.
+#[cfg(mini_mcmc_verif)]
+pub fn verif_stop_criterion<B>(
+    position_minus: Tensor<B, 1>,
+    position_plus: Tensor<B, 1>,
+    mom_minus: Tensor<B, 1>,
+    mom_plus: Tensor<B, 1>,
+) -> bool
+where
+    B: AutodiffBackend,
+{
+    stop_criterion(position_minus, position_plus, mom_minus, mom_plus)
+}
+
+/// Verification only: public wrapper around the private `leapfrog`.
+#[cfg(mini_mcmc_verif)]
+pub fn verif_leapfrog<B, T, GTarget>(
+    position: Tensor<B, 1>,
+    mom: Tensor<B, 1>,
+    grad: Tensor<B, 1>,
+    epsilon: T,
+    gradient_target: &GTarget,
+) -> (Tensor<B, 1>, Tensor<B, 1>, Tensor<B, 1>, Tensor<B, 1>)
+where
+    T: Float + ElementConversion,
+    B: AutodiffBackend,
+    GTarget: GradientTarget<T, B>,
+{
+    leapfrog(position, mom, grad, epsilon, gradient_target)
 }
 
 #[allow(dead_code)]
@@ -825,6 +1004,11 @@ where
             .expect("type conversion from joint tensor to scalar type T to succeed");
         let n_prime = (logu < joint) as usize;
         let s_prime = (logu - T::from(1000.0).unwrap()) < joint;
+        #[cfg(mini_mcmc_verif)]
+        mcmc_sim::trace::emit(
+            "nuts_leaf",
+            &[verif_f64(&joint), n_prime as f64, s_prime as u8 as f64],
+        );
         let position_minus = position_prime.clone();
         let position_plus = position_prime.clone();
         let mom_minus = mom_prime.clone();
@@ -928,6 +1112,11 @@ where
             }
 
             let u_build_tree: f64 = (*rng).random::<f64>();
+            #[cfg(mini_mcmc_verif)]
+            mcmc_sim::trace::emit(
+                "nuts_merge_u",
+                &[u_build_tree, n_prime as f64, n_prime_2 as f64, j as f64],
+            );
             if u_build_tree < (n_prime_2 as f64 / (n_prime + n_prime_2).max(1) as f64) {
                 position_prime = position_prime_2;
                 grad_prime = grad_prime_2;
